@@ -2,10 +2,11 @@
    64-bit field (F64_ops, F64_laws) and discharges ALL its hypotheses.  stdlib style. *)
 From Coq Require Import List Arith ZArith Lia Ring Field.
 From VBase Require Import FieldOps ZpOps.
-From VModel Require Import Composition.
+From VModel Require Import Composition CompositionLagrange.
+From VModel Require Enforce EnforceLagrange.
 From VModel Require FFT Stark.
 From VProofs Require FFTSpec FFTEval FFTOffset StarkPoly.
-From VProofs Require Import ZpLaws CompositionBase CompositionIndex CompositionVerifier CompositionTable CompositionFFT CompositionValid.
+From VProofs Require Import ZpLaws CompositionBase CompositionIndex CompositionVerifier CompositionTable CompositionFFT CompositionValid CompositionLagrange CompositionLagrangeTable.
 Import ListNotations.
 Local Open Scope nat_scope.
 
@@ -136,6 +137,35 @@ Proof.
   - intros g [].
   - apply lde_rows_witness.
   - reflexivity.
+Qed.
+
+(* ------------------------------------------------------------------ Lagrange kernel: n = 2 (v = 1), ce blowup 2 *)
+Definition LpA : list Fq := [e64 5; e64 6].
+Definition ldeLagA : list Fq := map (fun j => peval O64 LpA (fmul O64 (cpow O64 i4 j) (e64 7))) (seq 0 (lde_size 2 2)).
+Definition tLagA : EnforceLagrange.LagTC (F := Fq) :=
+  EnforceLagrange.mkLTC [e64 3] [Enforce.mkD [((2 ^ Z.of_nat 0)%Z, fone O64)] []].
+
+Example lagrange_evaluate_spec_instance :
+  lagrange_evaluate O64 2 2 2 (e64 7) rouA 1 ldeLagA tLagA [e64 9] (e64 4)
+  = Some (map (fun i => lag_def O64 2 rouA 1 LpA tLagA [e64 9] (e64 4) (ce_x O64 2 2 (e64 7) rouA i)) (seq 0 (ce_size 2 2))).
+Proof.
+  apply (lagrange_evaluate_spec O64 F64_laws 2 2 2 1 (e64 7) rouA i4); try lia;
+    try first [exact i4_order | exact i4_sq | exact i4_1 | reflexivity].
+  - intros j Hj. unfold ldeLagA. rewrite nth_error_map, (nth_error_nth' (seq 0 (lde_size 2 2)) 0) by (now rewrite seq_length).
+    now rewrite seq_nth.
+  - intros idx Hi. assert (idx = 0) by lia. subst. reflexivity.
+Qed.
+
+Example verifier_lagrange_agrees_instance : forall c x, length c = 2 ->
+  EnforceLagrange.lag_evaluate_and_combine O64 tLagA c [e64 9] x
+  = Some (rsum O64 (map (fun idx => fmul O64 (lag_num O64 1 tLagA [e64 9] c idx) (finv O64 (fsub O64 (cpow O64 x (2 ^ idx)) (fone O64)))) (seq 0 1)))
+  /\ EnforceLagrange.lag_boundary_evaluate_at O64 [e64 9] c (e64 4) x
+     = Some (fmul O64 (fmul O64 (fsub O64 (nth 0 c (fzero O64)) (EnforceLagrange.lag_assertion_value O64 [e64 9])) (e64 4)) (finv O64 (fsub O64 x (fone O64)))).
+Proof.
+  intros c x Hc.
+  apply (verifier_lagrange_agrees O64 F64_laws 2 2 2 1 ltac:(lia) ltac:(lia) ltac:(lia) ltac:(lia) 1 ldeLagA ltac:(reflexivity) tLagA [e64 9] (e64 4));
+    try lia; try reflexivity; try exact Hc.
+  intros idx Hi. assert (idx = 0) by lia. subst. reflexivity.
 Qed.
 
 Section TwoPoint.
